@@ -3,6 +3,7 @@ From Coq Require Import List Bool NArith String.
 From PC Require Import Base.Cmp Base.Result Model.Pep440 Spec.Pep440Spec Model.VConstraint
      Proofs.VersionFacts Proofs.RangeSpec Proofs.RangeAlg Proofs.RangeOps Proofs.UnionHull Proofs.UnionExact Proofs.Contain Proofs.InterExact Proofs.AnyIff.
 From PC Require Import Gen.RangeCmp Proofs.GenAgreeRange.
+From PC Require Import Proofs.DiffUnion Proofs.SortedOrder Proofs.UnionSorted Proofs.Closure.
 Import ListNotations.
 
 (* full statement, kept visible (unions included).  Proved: the allows_all half for every constraint shape (C12_allows_all_sound),
@@ -102,3 +103,12 @@ Theorem C12_any_iff_intersection : forall a b x i, nondeg_c a = true -> nondeg_c
   allows_any a b = Ok x -> intersect a b = Ok i -> x = negb (is_empty i).
 Proof. exact any_iff_intersection. Qed.
 Print Assumptions C12_any_iff_intersection.
+
+(* on results of the algebra: [sorted_c], the hypothesis of C12_allows_any_sound, is preserved by union / intersection / difference over
+   mutually regular bounds (C05_class_closed_and_exact), so the answers about two constraints obtained by any history of operations are
+   answers about what the two expressions mean: a "contains" never wrong, a "do not overlap" never wrong *)
+Theorem C12_answers_on_expressions : forall B, mutual B -> forall e1 e2 x y, leaves_in B e1 -> leaves_in B e2 -> ceval e1 = Ok x -> ceval e2 = Ok y ->
+  (allows_all x y = true -> forall v, wf v = true -> regB B v = true -> cmeans e2 v = true -> cmeans e1 v = true) /\
+  (allows_any x y = Ok false -> forall v, wf v = true -> regB B v = true -> cmeans e1 v && cmeans e2 v = false).
+Proof. exact answers_on_expressions. Qed.
+Print Assumptions C12_answers_on_expressions.
